@@ -98,7 +98,7 @@ class MirIndex:
         self.closure_by_span = {}; self.simple_consts = {}
         self.coro = {}
         self._src = {}
-        self._impl_cache = {}
+        self._impl_cache = {}; self._impl_ref = set()
 
     def add(self, path, crate=None):
         base = len(self.lines)
@@ -221,6 +221,12 @@ class MirIndex:
             self._src[file] = open(p).read().split('\n') if os.path.exists(p) else []
         return self._src[file]
 
+    def impl_self_is_ref(self, name):
+        """true if the impl block is `impl Trait for &T` (self type is a reference)"""
+        self.impl_info(name)
+        m = re.search(r'<impl at ([^:>]+):(\d+):(\d+): (\d+):(\d+)>', name)
+        return bool(m) and m.group(0) in self._impl_ref
+
     def impl_info(self, name):
         """for 'mod::<impl at file:l:c: l:c>::meth' return (trait or None, selftype last segment or None)"""
         m = re.search(r'<impl at ([^:>]+):(\d+):(\d+): (\d+):(\d+)>', name)
@@ -256,6 +262,7 @@ class MirIndex:
                     if ' for ' in body:
                         tr, ty = body.split(' for ', 1)
                         res = (last_seg(tr), last_seg(ty))
+                        if ty.strip().startswith('&'): self._impl_ref.add(key)
                     else: res = (None, last_seg(body))
         self._impl_cache[key] = res
         return res
